@@ -114,6 +114,17 @@ for _m, _p, _k in (("_render_sub_command_arguments", "arguments", "Argument"), (
                ensures=["layout.g_added == old(layout.g_added) + len(%s) + 1" % _p], modifies=LAYOUT_MODS)
     R.loop(M_CH + ":CommandHelp." + _m, 0, invariants=["layout.g_added == old(layout.g_added) + _i"],
            modifies=LAYOUT_MODS, fingerprint=" in %s" % _p)  # the invariant names no loop variable: a renamed one still verifies
+# the three element sections of every help page (ARGUMENTS / OPTIONS / GLOBAL OPTIONS): a heading, exactly one line per
+# element handed in -- none dropped, none repeated, for any number of elements -- and a separator
+SECTION_LOOPS = []
+for _m, _p, _k in (("_render_arguments", "arguments", "Argument"), ("_render_options", "options", "Option"),
+                   ("_render_global_options", "options", "Option")):
+    R.contract(M_AH + ":AbstractHelp." + _m, params={"layout": "ref BlockLayout", _p: "seq[ref %s]" % _k},
+               requires=(["all(bool(o._flags & 1) or o._short_name is not None for o in options)"] if _k == "Option" else []),
+               ensures=["layout.g_added == old(layout.g_added) + len(%s) + 2" % _p], modifies=LAYOUT_MODS)
+    R.loop(M_AH + ":AbstractHelp." + _m, 0, invariants=["layout.g_added == old(layout.g_added) + 1 + _i"],
+           modifies=LAYOUT_MODS, fingerprint=" in %s" % _p)
+    SECTION_LOOPS.append(M_AH + ":AbstractHelp." + _m)
 RSC = M_CH + ":CommandHelp._render_sub_command"
 SC_D = "(command._config._description is not None and len(command._config._description) > 0)"
 SC_H = "(command._config._help is not None and len(command._config._help) > 0)"
@@ -133,4 +144,4 @@ R.contract(
     ],
     modifies=LAYOUT_MODS,
 )
-C13_EXTRA = [M_CMDM + ":Command.name", M_CCFG + ":CommandConfig.is_hidden", RSC, M_CH + ":CommandHelp._render_sub_command_arguments", M_CH + ":CommandHelp._render_sub_command_options", M_CH + ":CommandHelp._render_sub_command_description", M_CH + ":CommandHelp._render_sub_command_help"]
+C13_EXTRA = SECTION_LOOPS + [M_CMDM + ":Command.name", M_CCFG + ":CommandConfig.is_hidden", RSC, M_CH + ":CommandHelp._render_sub_command_arguments", M_CH + ":CommandHelp._render_sub_command_options", M_CH + ":CommandHelp._render_sub_command_description", M_CH + ":CommandHelp._render_sub_command_help"]
